@@ -33,6 +33,7 @@ VARIABLES S, ready, budget
 vars == <<S, ready, budget>>
 
 WithComm == FALSE        \* (overridden in MC modules) the process is constructed with a communicator
+MaxRestores == 99        \* (overridden in MC modules) how often one checkpoint may be loaded
 
 Terminal == {"FINISHED", "EXCEPTED", "KILLED"}
 Live     == {"CREATED", "RUNNING", "WAITING"}
@@ -724,7 +725,8 @@ EnvBcast(intent, text) == Offered("bcast") /\ S.comm /\ Env(Deliver(S, ready, "b
 StepClose(s, rdy) == LET r == CloseOp(s) IN Out2(Note(r.s, <<"call", "close", None, r.ret, r.exc, "env">>), rdy)
 EnvClose          == Offered("close") /\ Env(StepClose(S, ready))
 EnvSave           == Offered("save") /\ ~S.stepping /\ Env([s |-> TakeSnapshot(S), rdy |-> ready])
-EnvRestore        == Offered("restore") /\ S.snap.has /\ Env([s |-> Restore(S), rdy |-> <<"task">>])
+\* (MaxRestores: a raw, unserialised Bundle object may be loaded once only - the loaded process shares its mutable values)
+EnvRestore        == Offered("restore") /\ S.snap.has /\ S.restores < MaxRestores /\ Env([s |-> Restore(S), rdy |-> <<"task">>])
 RunHandle         == ready # <<>> /\ LET r == StepRun(S, ready) IN S' = r.s /\ ready' = r.rdy /\ UNCHANGED budget
 
 MaxAwaitables == 3
